@@ -72,6 +72,16 @@ impl Report {
         }
         g.outcomes.insert(outcome);
     }
+    pub fn cases_bulk(&self, v: &[(u64, bool, u64)]) {
+        let mut g = self.inner.lock().unwrap();
+        for (input, nt, out) in v {
+            g.inputs.insert(*input);
+            if *nt {
+                g.nontrivial.insert(*input);
+            }
+            g.outcomes.insert(*out);
+        }
+    }
     pub fn add_states(&self, states: u64, transitions: u64) {
         let mut g = self.inner.lock().unwrap();
         g.states += states;
